@@ -712,6 +712,8 @@ func c18Helpers(w *c18World) []c18Helper {
 		// index and link read paths at every place (base path depth 0-3): concurrent callers read
 		// DIFFERENT keys of the same index
 		{c18s2HelperIdx, func(i int) bool { return c18s2Hammer(fixture.get(w), i, true) }},
+		// c18_s9.go: rounds of read transactions that share the slices they pass to the index / link read helpers
+		{c18s9HelperShared, func(i int) bool { return c18s9Round(fixture.get(w), i) }},
 	}
 }
 
@@ -1295,6 +1297,22 @@ func runC18(o *opts) error {
 		impl.line("%s", c18Hammer(h, goroutines, iters))
 		stats["hammer_calls"] += goroutines * iters
 	}
+	// c18_s9b.go: fresh processes whose first parses / symbol lookups / queries happen concurrently
+	nCold, coldWorkers := 6, 16
+	if o.thorough() {
+		nCold = 24
+	}
+	nCold = o.getInt("cold", nCold)
+	coldPids := newLineWriter(o.out, "cold_pids.txt")
+	for k := 0; k < nCold; k++ {
+		variant := int(o.seed%97)*nCold + k
+		obs, pid := w.c18s9ColdRun(variant, coldWorkers+8*(k%2))
+		cases.line("C %d %d", variant, coldWorkers+8*(k%2))
+		impl.line("%s", obs)
+		coldPids.line("%d C %d %d", pid, variant, coldWorkers+8*(k%2))
+		stats["cold_starts"]++
+	}
+	coldPids.close()
 	writeJSON(o.out, "stats.json", stats)
 	return nil
 }
@@ -1316,6 +1334,9 @@ func c18Hammer(h c18Helper, goroutines, iters int) string {
 	hw.Wait()
 	if wrong == 0 {
 		return "X ok"
+	}
+	if d := c18s9TakeDetail(); d != "" { // c18_s9.go: the first wrong observation, for the report
+		return fmt.Sprintf("X wrong %d first: %s", wrong, d)
 	}
 	return fmt.Sprintf("X wrong %d", wrong)
 }
@@ -1473,6 +1494,18 @@ func c18Replay(w *c18World, path string, cases, impl *lineWriter) error {
 					obs = rec.obs
 					break
 				}
+			}
+			impl.line("%s", obs)
+		case "C":
+			if len(f) < 3 {
+				impl.line("C unknown")
+				break
+			}
+			variant, _ := strconv.Atoi(f[1])
+			workers, _ := strconv.Atoi(f[2])
+			obs, _ := w.c18s9ColdRun(variant, workers)
+			for k := 0; k < 5 && obs == "C ok"; k++ { // a process has one first time: a replay takes a few
+				obs, _ = w.c18s9ColdRun(variant, workers)
 			}
 			impl.line("%s", obs)
 		case "S":
